@@ -431,7 +431,8 @@ def project(tag):
     os.makedirs(os.path.join(d, "src", "bin"))
     os.makedirs(os.path.join(d, ".cargo"))
     open(os.path.join(d, "Cargo.toml"), "w").write(CARGO_TOML)
-    shutil.copy("/repo/Cargo.lock", os.path.join(d, "Cargo.lock"))
+    lock = "/repo/Cargo.lock" if os.path.exists("/repo/Cargo.lock") else os.path.join(HARNESS, "Cargo.lock")
+    shutil.copy(lock, os.path.join(d, "Cargo.lock"))
     open(os.path.join(d, ".cargo", "config.toml"), "w").write(
         '[net]\noffline = true\n\n[build]\ntarget-dir = "%s"\nrustflags = ["-Awarnings"]\n' % os.path.join(WORK, "target"))
     return d
